@@ -238,6 +238,17 @@ func (e *Exec) Finish() {
 	e.net.TakeEvs()
 }
 
+// ParkedRecvs counts Recv calls that have not returned yet
+func (e *Exec) ParkedRecvs() int {
+	n := 0
+	for _, call := range e.calls {
+		if call.Kind == "recv" {
+			n++
+		}
+	}
+	return n
+}
+
 func (e *Exec) Replay() map[string]interface{} {
 	return map[string]interface{}{"machine": e.tag, "ops": append([]string{}, e.ops...)}
 }
